@@ -167,10 +167,9 @@ func ParseCheckpoint(chkpt []byte, origin string, logSigV note.Verifier, otherSi
 	if !HasSig(chkpt, k) {
 		return nil, nil, n, errNoLogSig
 	}
-	if !TextOK(chkpt) {
-		return nil, nil, n, errUnmarshal
-	}
-	if FirstLine(chkpt) != origin {
+	// (one branch for "body is not a checkpoint" and "unexpected origin": callers cannot tell the
+	// two apart except by the message)
+	if !And(TextOK(chkpt), FirstLine(chkpt) == origin) {
 		return nil, nil, n, errOrigin
 	}
 	if hostileOn {
